@@ -79,8 +79,10 @@ class Actor(Process):
         self.pending = None
 
     def ports_schema(self):
-        return {'loc1': {'*': copy.deepcopy(FULL)},
-                'loc2': {'*': copy.deepcopy(FULL)},
+        # 'tag' is declared for the agents only here (glob schema of a
+        # process outside the compartments)
+        return {'loc1': {'*': dict(copy.deepcopy(FULL), tag={'_default': 2})},
+                'loc2': {'*': dict(copy.deepcopy(FULL), tag={'_default': 2})},
                 'counts': {'*': {'_default': 5}}}
 
     def next_update(self, timestep, states):
@@ -179,7 +181,8 @@ def make_op(ctx, kind, state, vals_new, fresh):
             d.append({'key': first + suffix, 'processes': a['processes'],
                       'topology': a['topology'],
                       # the first daughter is listed with a state of her own
-                      'initial_state': {'s': {'x': vals_new}}
+                      'initial_state': {'s': {'x': vals_new},
+                                        'tag': vals_new}
                       if suffix == '0' else {}})
         return ({'loc1': {'_divide': {'mother': first, 'daughters': d}}},
                 [('loc1', first)],
@@ -188,7 +191,10 @@ def make_op(ctx, kind, state, vals_new, fresh):
                                for i, s in enumerate('01')],
                  'daughter_state': (('loc1', first + '0', 's', 'x'),
                                     ('loc1', first + '1', 's', 'x'),
-                                    ('loc1', first, 's', 'x'))})
+                                    ('loc1', first, 's', 'x')),
+                 'daughter_tag': (('loc1', first + '0', 'tag'),
+                                  ('loc1', first + '1', 'tag'),
+                                  ('loc1', first, 'tag'))})
     if label == 'move':
         return ({'loc1': {'_move': [{'source': (first,),
                                      'target': ('loc2',)}]}},
@@ -254,7 +260,7 @@ def body(ctx, cfg):
                 'loc1': {'a1': a1['topology']}, 'loc2': {'b1': b1['topology']}}
     steps = {'loc1': {'a1': a1.get('steps', {})}}
     flow = {'loc1': {'a1': a1.get('flow', {})}}
-    init = {'loc1': {'a1': {'s': {'x': vals['a1']}}},
+    init = {'loc1': {'a1': {'s': {'x': vals['a1']}, 'tag': vals['sub']}},
             'loc2': {'b1': {'s': {'x': vals['b1']}}},
             'counts': {'c0': 1}}
     if nested:
@@ -349,6 +355,10 @@ def body(ctx, cfg):
             d0, d1, mo = checks['daughter_state']
             cr.append(EQ(_get(val, d0), vnew))            # listed state wins
             cr.append(EQ(_get(val, d1), before[mo][1]))   # mother's value
+        if 'daughter_tag' in checks:
+            d0, d1, mo = checks['daughter_tag']
+            cr.append(EQ(_get(val, d0), vnew))
+            cr.append(EQ(_get(val, d1), before[mo][1]))
         if 'moved' in checks:
             src, dst = checks['moved']
             for p, (i, v) in before.items():
